@@ -65,32 +65,38 @@ example : ∀ i ∈ [109, 1, 2, 109, 3, 1], ∃ f, exReg i = some f ∧ Lawful f
   | none => simp [hf] at this
   | some f => exact ⟨f, rfl, lawful_exReg i f hf⟩
 
-/-- Documented length: `Append` (both the functional model used by the frame reader and the
-    statement-by-statement model `appendSt`) refuses a total length above 255, and accepts every
-    total length up to 255 when all ids are registered. -/
+/-- Documented length, all or nothing: `Append` (both the functional model used by the frame reader
+    and the statement-by-statement model `appendSt` = (pipe afterwards, returned nil))
+    (1) refuses a total length above 255 and leaves the pipe exactly as it was;
+    (2) accepts every total length up to 255 when all ids are registered, appending exactly them;
+    (3) in every case the pipe afterwards is the old pipe plus all the ids (and the call returned
+        nil) or the old pipe unchanged (and it returned an error) — never a partial append;
+    (4) so it never makes a pipe longer than 255. -/
 theorem C12_pipe_len (reg : Registry) (cur ids : List UInt8) :
     ((cur ++ ids).length > 255 →
-        Xfer.append reg cur ids = none ∧ (appendSt reg cur ids).2 = false) ∧
+        Xfer.append reg cur ids = none ∧ appendSt reg cur ids = (cur, false)) ∧
     ((∀ i ∈ ids, (reg i).isSome = true) → (cur ++ ids).length ≤ 255 →
-        Xfer.append reg cur ids = some (cur ++ ids) ∧ appendSt reg cur ids = (cur ++ ids, true)) := by
-  constructor
+        Xfer.append reg cur ids = some (cur ++ ids) ∧ appendSt reg cur ids = (cur ++ ids, true)) ∧
+    (appendSt reg cur ids = (cur ++ ids, true) ∨ appendSt reg cur ids = (cur, false)) ∧
+    (cur.length ≤ 255 → (appendSt reg cur ids).1.length ≤ 255) := by
+  refine ⟨?_, ?_, ?_, appendSt_len reg cur ids⟩
   · intro hlen
     have h1 : Xfer.append reg cur ids = none := by
       unfold Xfer.append
       repeat' split
       all_goals first | rfl | omega
     refine ⟨h1, ?_⟩
-    have := append_eq_appendSt reg cur ids
-    rw [h1] at this
-    cases hb : (appendSt reg cur ids).2 with
-    | false => rfl
-    | true => simp [hb] at this
+    rcases appendSt_cases reg cur ids with ⟨_, _, hl⟩ | ⟨h, _⟩
+    · omega
+    · exact h
   · intro hall hlen
     have h2 := appendSt_all reg cur ids hall
-    have h3 : decide ((cur ++ ids).length ≤ 255) = true := decide_eq_true hlen
-    rw [h3] at h2
+    rw [if_pos hlen] at h2
     refine ⟨?_, h2⟩
     rw [append_eq_appendSt, h2]; rfl
+  · rcases appendSt_cases reg cur ids with ⟨h, _⟩ | ⟨h, _⟩
+    · exact Or.inl h
+    · exact Or.inr h
 
 example : (∀ i ∈ List.replicate 200 (109 : UInt8), (exReg i).isSome = true) ∧
     (List.replicate 55 (1 : UInt8) ++ List.replicate 200 109).length ≤ 255 := by
@@ -99,11 +105,12 @@ example : (∀ i ∈ List.replicate 200 (109 : UInt8), (exReg i).isSome = true) 
   · rw [List.length_append, List.length_replicate, List.length_replicate]; omega
 
 /-- An unregistered filter is refused, never passed through: `Append` of ids containing an
-    unregistered one fails (whatever the pipe held before), and packing or unpacking along a pipe
+    unregistered one fails (whatever the pipe held before) and leaves the pipe as it was — the
+    registered ids in front of it do not stay appended —, and packing or unpacking along a pipe
     that names an unregistered id fails for every payload. -/
 theorem C12_unknown_filter_refused (reg : Registry) (p : List UInt8) (i : UInt8) (hi : i ∈ p)
     (hr : reg i = none) :
-    (∀ cur, Xfer.append reg cur p = none ∧ (appendSt reg cur p).2 = false) ∧
+    (∀ cur, Xfer.append reg cur p = none ∧ appendSt reg cur p = (cur, false)) ∧
     (∀ x, onPack reg p x = none) ∧ (∀ y, onUnpack reg p y = none) := by
   refine ⟨fun cur => ?_, fun x => onPack_unregistered reg p x i hi hr,
     fun y => onUnpack_unregistered reg p y i hi hr⟩
@@ -218,60 +225,91 @@ example : Raw.WF exReg exMsg := by
 
 /-- A reply to a call is sent through the caller's pipe. `replyPipe reg pre req post` is the
     pipe of the reply as `context.go` computes it (`pre`/`post`: the `AddXferPipe` calls made before
-    / after `handleCall` copied the request's pipe). In the code the order is: filters added before
-    `handleCall`, then the caller's pipe, then the handler's additions.
+    / after `handleCall` copied the request's pipe; `req`: the caller's pipe, which a frame can only
+    carry within the documented length). In the code the order is: filters added before
+    `handleCall` (dropped if they and the caller's pipe do not both fit), then the caller's pipe,
+    then the handler's additions (each call accepted or refused as a whole).
     (1) without additions it is exactly the caller's pipe;
     (2) in general it is the caller's pipe between accepted additions, all of them registered;
-    (3) registered handler additions follow the caller's pipe in call order;
+    (3) registered handler additions that fit follow the caller's pipe in call order;
     (4) it names only registered filters if the caller's pipe does. -/
-theorem C12_reply_uses_callers_pipe (reg : Registry) (pre post : List (List UInt8)) (req : List UInt8) :
+theorem C12_reply_uses_callers_pipe (reg : Registry) (pre post : List (List UInt8)) (req : List UInt8)
+    (hreq : req.length ≤ 255) :
     replyPipe reg [] req [] = req ∧
     (∃ a b, replyPipe reg pre req post = a ++ req ++ b ∧ ∀ i ∈ a ++ b, (reg i).isSome = true) ∧
-    ((∀ c ∈ post, ∀ i ∈ c, (reg i).isSome = true) → replyPipe reg [] req post = req ++ post.flatten) ∧
+    ((∀ c ∈ post, ∀ i ∈ c, (reg i).isSome = true) → (req ++ post.flatten).length ≤ 255 →
+      replyPipe reg [] req post = req ++ post.flatten) ∧
     ((∀ i ∈ req, (reg i).isSome = true) → ∀ i ∈ replyPipe reg pre req post, (reg i).isSome = true) := by
+  have hnil : callPipe [] req = req := by
+    have := (callPipe_spec [] req hreq).2
+    simpa using this
   have hgen : ∃ a b, replyPipe reg pre req post = a ++ req ++ b ∧ ∀ i ∈ a ++ b, (reg i).isSome = true := by
     obtain ⟨a, ha, ha2⟩ := addAll_extends reg [] pre
-    obtain ⟨b, hb, hb2⟩ := addAll_extends reg (appendFrom (addAll reg [] pre) req) post
-    refine ⟨a, b, ?_, ?_⟩
-    · simp only [List.nil_append] at ha
-      simp only [appendFrom, ha] at hb
-      simp only [replyPipe, appendFrom, ha, hb]
-    · intro i hi
-      rcases List.mem_append.1 hi with e | e
-      · exact ha2 i e
-      · exact hb2 i e
-  refine ⟨by simp [replyPipe, addAll, appendFrom], hgen, ?_, ?_⟩
-  · intro hall
-    simp only [replyPipe, addAll, List.foldl_nil, appendFrom, List.nil_append]
-    exact addAll_registered reg req post hall
-  · intro hreq i hi
+    simp only [List.nil_append] at ha
+    obtain ⟨b, hb, hb2⟩ := addAll_extends reg (callPipe (addAll reg [] pre) req) post
+    have hc := (callPipe_spec (addAll reg [] pre) req hreq).2
+    by_cases hov : (addAll reg [] pre).length + req.length > 255
+    · rw [if_pos hov] at hc
+      refine ⟨[], b, ?_, ?_⟩
+      · unfold replyPipe; rw [hb, hc]
+      · intro i hi; exact hb2 i (by simpa using hi)
+    · rw [if_neg hov, ha] at hc
+      refine ⟨a, b, ?_, ?_⟩
+      · unfold replyPipe; rw [hb, ha, hc]
+      · intro i hi
+        rcases List.mem_append.1 hi with e | e
+        · exact ha2 i e
+        · exact hb2 i e
+  refine ⟨by simp [replyPipe, addAll, hnil], hgen, ?_, ?_⟩
+  · intro hall hlen
+    simp only [replyPipe, addAll, List.foldl_nil, hnil]
+    exact addAll_registered reg req post hall hlen
+  · intro hreq' i hi
     obtain ⟨a, b, e, hab⟩ := hgen
     rw [e] at hi
     simp only [List.mem_append] at hi hab
     rcases hi with (h | h) | h
     · exact hab i (Or.inl h)
-    · exact hreq i h
+    · exact hreq' i h
     · exact hab i (Or.inr h)
 
-/-- ... and while the reply's pipe stays within the documented length, the frame announces exactly
-    that pipe (`learned` = what a receiver reads back from the length byte and the id bytes). -/
-theorem C12_reply_pipe_announced (reg : Registry) (pre post : List (List UInt8)) (req : List UInt8)
-    (h : (replyPipe reg pre req post).length ≤ 255) :
-    learned (replyPipe reg pre req post) = replyPipe reg pre req post := learned_of_le _ h
+example : ([1, 109, 2] : List UInt8).length ≤ 255 ∧
+    (∀ c ∈ [[2, 2], [109, 1]], ∀ i ∈ c, (exReg i).isSome = true) ∧
+    (([1, 109, 2] : List UInt8) ++ [[2, 2], [109, 1]].flatten).length ≤ 255 := by decide
 
-example : (replyPipe exReg [[3]] [1, 109, 2] [[2, 2], [109, 7, 1], [1]]) = [3, 1, 109, 2, 2, 2, 109, 1] ∧
+/-- The reply's pipe never overflows (this replaces the former finding
+    `C12_reply_pipe_overflow_witness`, which the corrected `Append` / `AppendFrom` / `handleCall`
+    make false). For EVERY registry, EVERY request pipe within the documented length, and EVERY
+    sequence of `AddXferPipe` calls before and after `handleCall` (any ids, registered or not, any
+    lengths):
+    (1) the reply's pipe has at most 255 filters;
+    (2) it contains the caller's pipe (the reply still goes through it, whatever was refused);
+    (3) the frame announces exactly it: the length byte `rawProto.Pack` writes is its true length,
+        and what the receiver reads back from the frame (`learned`) is the pipe itself. -/
+theorem C12_reply_pipe_never_overflows (reg : Registry) (pre post : List (List UInt8)) (req : List UInt8)
+    (hreq : req.length ≤ 255) :
+    (replyPipe reg pre req post).length ≤ 255 ∧
+    (∃ a b, replyPipe reg pre req post = a ++ req ++ b) ∧
+    (∃ n : UInt8, wirePipe (replyPipe reg pre req post) = n :: replyPipe reg pre req post ∧
+      n.toNat = (replyPipe reg pre req post).length) ∧
+    learned (replyPipe reg pre req post) = replyPipe reg pre req post := by
+  have hlen : (replyPipe reg pre req post).length ≤ 255 :=
+    addAll_len reg _ post (callPipe_spec _ req hreq).1
+  obtain ⟨a, b, e, _⟩ := (C12_reply_uses_callers_pipe reg pre post req hreq).2.1
+  refine ⟨hlen, ⟨a, b, e⟩, ⟨_, rfl, ?_⟩, learned_of_le _ hlen⟩
+  exact Raw.toUInt8_toNat (replyPipe reg pre req post).length (by omega)
+
+/-- non-vacuity and the former failing inputs: additions before and after, an unregistered id (7)
+    in the middle of a call — that whole call is refused —, and the two boundary cases of the
+    finding: a caller's pipe of 255 plus a handler addition (refused, the reply uses exactly the
+    caller's pipe), and a filter added before `handleCall` (dropped in favour of the caller's pipe). -/
+example : (replyPipe exReg [[3]] [1, 109, 2] [[2, 2], [109, 7, 1], [1]]) = [3, 1, 109, 2, 2, 2, 1] ∧
     (replyPipe exReg [[3]] [1, 109, 2] [[2, 2], [109, 7, 1], [1]]).length ≤ 255 := by decide
 
-/-- FINDING (as coded): `AppendFrom` does not check the length and `AddXferPipe` drops the error of
-    `Append`, which has already stored the ids. With a caller's pipe of the documented maximum
-    length 255 (registered ids only) and a handler that adds one registered filter, the reply is
-    filtered through 256 filters while its frame announces `byte(256) = 0` of them: the receiver
-    cannot learn the pipe from the frame. -/
-theorem C12_reply_pipe_overflow_witness :
-    (List.replicate 255 (1 : UInt8)).length ≤ 255 ∧
-    (replyPipe exReg [] (List.replicate 255 1) [[2]]).length = 256 ∧
-    learned (replyPipe exReg [] (List.replicate 255 1) [[2]]) = [] ∧
-    learned (replyPipe exReg [] (List.replicate 255 1) [[2]]) ≠ replyPipe exReg [] (List.replicate 255 1) [[2]] := by
+example : replyPipe exReg [] (List.replicate 255 1) [[2]] = List.replicate 255 1 ∧
+    replyPipe exReg [[1]] (List.replicate 255 3) [] = List.replicate 255 3 ∧
+    replyPipe exReg [] (List.replicate 254 1) [[2, 3], [2]] = List.replicate 254 1 ++ [2] ∧
+    learned (replyPipe exReg [] (List.replicate 255 1) [[2]]) = List.replicate 255 1 := by
   decide +kernel
 
 /-- Registration never replaces a filter: after any successful `Reg`, every id that was registered
